@@ -52,7 +52,12 @@ func (fs *memFS) CreateLockFile(name string, perm os.FileMode) (LockFile, bool, 
 	if err != nil {
 		return nil, false, err
 	}
-	return fs.files[name], exists, nil
+	lf := fs.files[name]
+	if _, err := lf.WriteAt([]byte{1}, 0); err != nil {
+		// Same content as the lock file of the OS file systems: a one-byte mark.
+		return nil, false, err
+	}
+	return lf, exists, nil
 }
 
 func (fs *memFS) Stat(name string) (os.FileInfo, error) {
